@@ -7,9 +7,14 @@ import Teleport.Gen.Frames
 import Teleport.Lemmas.Reader
 import Teleport.Lemmas.JsonProto
 import Teleport.Lemmas.PbProto
+import Teleport.Lemmas.WsSubProto
 import Teleport.Lemmas.HttpStatus
 import Teleport.Lemmas.HttpWF
 import Teleport.Drv.TestFilters
+import Teleport.Gen.Consts
+import Teleport.Lemmas.ThriftProto
+import Teleport.Drv.C05t
+import Teleport.Lemmas.ThriftToy
 namespace Teleport
 namespace C05
 open Bytes
@@ -668,6 +673,374 @@ theorem C05_http_pack_panic_witness :
       { exBizH with md := [([88, 45, 67, 111, 110, 116, 101, 110, 116, 45, 69, 110, 99, 111, 100, 105, 110, 103], [110, 111])] } = .panic := by
   decide +kernel
 -- END http framing
+
+
+/-! ### tie A — limits and codec ids used by the frame models (fact group `Consts`) -/
+
+/-- id of the registered codec called `name` (codec/*.go, regenerated). -/
+def genCodecId (name : String) : Option UInt8 :=
+  (Gen.consts_codecs.find? (·.2.2 == name)).map (·.2.1.toUInt8)
+
+/-- **C05 tie A, size limit**: the default read limit of socket/message.go is 1 GiB, fits the 4-byte
+    length field (`Raw.pack` writes `total % 2^32`), `SetMessageSizeLimit(0)` restores it and any other
+    argument is taken as is (the function EXECUTED on 0, 1, 4096); running `Raw.unpack` under the default
+    limit, a frame that announces limit+1 bytes is refused with the size error before anything is read and
+    one that announces exactly the limit is not refused for its size. The method-length limit 255 of
+    `Raw.pack` is tied by `C05_raw_field_widths` (`Gen.frames_raw_method_check`). -/
+theorem C05_consts_limits :
+    Gen.consts_missing = [] ∧
+    Gen.consts_size_limit_default = 1073741824 ∧ Gen.consts_size_limit_default < 4294967296 ∧
+    Gen.consts_size_limit_rule = [(0, Gen.consts_size_limit_default), (1, 1), (4096, 4096)] ∧
+    (match (Raw.unpack Drv.testReg Gen.consts_size_limit_default (be32 (Gen.consts_size_limit_default + 1))).out with
+      | .size => true | _ => false) = true ∧
+    (match (Raw.unpack Drv.testReg Gen.consts_size_limit_default (be32 Gen.consts_size_limit_default)).out with
+      | .size => false | _ => true) = true := by
+  decide +kernel
+
+/-- **C05 tie A, codec ids of the http mapping**: `HttpP.contentType` / `HttpP.bodyCodec` use the ids that
+    codec/*.go declares now for protobuf, json, form, plain and xml (running both on every one of them:
+    content type of the id, and back), and the nil codec id is what an unknown content type maps to. -/
+theorem C05_consts_http_codec_ids :
+    Gen.consts_missing = [] ∧
+    [genCodecId "protobuf", genCodecId "json", genCodecId "form", genCodecId "plain", genCodecId "xml"].map
+      (fun o => o.map fun i => (HttpP.contentType i [], HttpP.bodyCodec (HttpP.contentType i []) == i)) =
+      [some (HttpP.ctPb ++ HttpP.charset, true), some (HttpP.ctJson ++ HttpP.charset, true),
+       some (HttpP.ctForm ++ HttpP.charset, true), some (HttpP.ctPlain ++ HttpP.charset, true),
+       some (HttpP.ctXml ++ HttpP.charset, true)] ∧
+    HttpP.bodyCodec [120] = Gen.consts_nil_codec_id.toUInt8 ∧
+    (genCodecId "thrift").map (fun i => HttpP.contentType i [1]) = some [1] := by
+  decide +kernel
+
+
+-- BEGIN websocket sub-protocols
+/-! ## The websocket sub-protocols (`mixer/websocket/jsonSubProto`, `mixer/websocket/pbSubProto`,
+modelled in Model/WsSubProto)
+
+One websocket message = one document: no outer length frame, `Unpack` takes everything `ReadAll`
+returns. `WsP.packJson` / `WsP.packPb` write exactly what `Pack` writes (transfer pipe over the BODY
+only, filter ids inside the document); `WsP.unpackJson` / `WsP.unpackPb` are `Unpack` as coded:
+`SetSize` with its error dropped, the ids appended one by one with `Append`'s error dropped (unknown
+ids and every id beyond the 255th vanish), `OnUnpack`'s error returned with only size, pipe and body
+codec set. The supported field set of jsonSubProto is jsonproto's `WFj` (found the same way: by
+running the real code); pbSubProto's is `WFwp`, and its record has no status field. -/
+
+/-- **jsonSubProto round trip.** For every message of the supported field set `WFj` and every pipe of
+    registered lawful filters, unpacking the document `Pack` wrote yields the same sequence number,
+    type, service method, STATUS (since fix d2190d3), metadata, body codec, body and filter list,
+    with the size `Pack` recorded. Any registry, any limit that admitted the document. -/
+theorem C05_wsjson_roundtrip (reg : Registry) (limit : Nat) (m : Msg) (bs : Bytes) (sz : Nat)
+    (hw : JsonP.WFj m) (hl : ∀ i ∈ m.pipe, ∃ f, reg i = some f ∧ Xfer.Lawful f)
+    (hp : WsP.packJson reg limit m = .ok (bs, sz)) (hlt : bs.length < 4294967296) :
+    WsP.unpackJson reg limit bs = .ok { m with size := sz } :=
+  (WsP.unpackJson_packJson reg limit m bs sz hw hl hp hlt).1
+
+/-- **jsonSubProto size.** For EVERY message `Pack` accepts (inside or outside `WFj`) the recorded
+    size is the length of the document it wrote (as a uint32) and is within the limit; and for EVERY
+    document — written by `Pack` or not — a message `Unpack` delivers carries the document length,
+    or 0 when that length is above the read limit (`SetSize`'s error is dropped: the document is
+    decoded all the same). Both are functions of the one message alone. -/
+theorem C05_wsjson_size (reg : Registry) (limit : Nat) :
+    (∀ m bs sz, WsP.packJson reg limit m = .ok (bs, sz) → sz = WsP.u32 bs.length ∧ sz ≤ limit) ∧
+    (∀ b m, WsP.unpackJson reg limit b = .ok m → m.size = WsP.sizeSet limit b.length) :=
+  ⟨fun m bs sz h => WsP.packJson_size reg limit m bs sz h, fun b m h => WsP.unpackJson_size reg limit b m h⟩
+
+/-- **jsonSubProto, any document:** the filter list of a delivered message holds registered ids
+    only and at most 255 of them — ids the receiver does not know and ids beyond the 255th are
+    dropped silently (`Append`'s error is ignored), they never reach `OnUnpack`. -/
+theorem C05_wsjson_pipe_registered (reg : Registry) (limit : Nat) (b : Bytes) (m : Msg)
+    (h : WsP.unpackJson reg limit b = .ok m) : m.pipe.length ≤ 255 ∧ ∀ i ∈ m.pipe, (reg i).isSome = true :=
+  WsP.unpackJson_pipe reg limit b m h
+
+/-- **pbSubProto round trip**, the protobuf serializer a parameter `(ser, de)` whose decoder inverts
+    its encoder: for every message of `WFwp` and every pipe of registered lawful filters, unpacking
+    the document `Pack` wrote yields the same sequence number, type, service method, metadata, body
+    codec, body and filter list and the recorded size = the document length — and the ZERO status,
+    whatever status was packed (the record has no field for it). For a message without a status
+    this is the full round trip (`C05_wspb_roundtrip_nostatus`). -/
+theorem C05_wspb_roundtrip (ser : WsP.PRec → Option Bytes) (de : Bytes → Except String WsP.PRec)
+    (hsd : ∀ r t, ser r = some t → de t = .ok r)
+    (reg : Registry) (limit : Nat) (m : Msg) (bs : Bytes) (sz : Nat)
+    (hw : WsP.WFwp m) (hl : ∀ i ∈ m.pipe, ∃ f, reg i = some f ∧ Xfer.Lawful f)
+    (hp : WsP.packPb ser reg limit m = .ok (bs, sz)) (hlt : bs.length < 4294967296) :
+    WsP.unpackPb de reg limit bs = .ok { m with status := Status.zero, size := sz } ∧ sz = bs.length :=
+  WsP.unpackPb_packPb ser de hsd reg limit m bs sz hw hl hp hlt
+
+/-- pbSubProto inside its supported field set (no status): every field comes back. -/
+theorem C05_wspb_roundtrip_nostatus (ser : WsP.PRec → Option Bytes) (de : Bytes → Except String WsP.PRec)
+    (hsd : ∀ r t, ser r = some t → de t = .ok r)
+    (reg : Registry) (limit : Nat) (m : Msg) (bs : Bytes) (sz : Nat)
+    (hw : WsP.WFwp m) (hst : m.status = Status.zero) (hl : ∀ i ∈ m.pipe, ∃ f, reg i = some f ∧ Xfer.Lawful f)
+    (hp : WsP.packPb ser reg limit m = .ok (bs, sz)) (hlt : bs.length < 4294967296) :
+    WsP.unpackPb de reg limit bs = .ok { m with size := sz } := by
+  have h := (WsP.unpackPb_packPb ser de hsd reg limit m bs sz hw hl hp hlt).1
+  rw [h]
+  cases m
+  simp only at hst
+  subst hst
+  rfl
+
+/-- the message of the examples below: a REPLY with status (404, "Not Found"), metadata, a body
+    with control bytes, quotes and backslashes, and three filters. -/
+def exMsgW : Msg :=
+  { seq := -2147483648, mtype := 2, method := [47, 97, 47, 98], status := ⟨404, [78, 111, 116, 32, 70, 111, 117, 110, 100], none⟩,
+    md := [([107], [118, 37, 38]), ([107], [])], codec := 106, body := [0, 34, 92, 10, 255, 123, 125], pipe := [3, 2, 1] }
+
+/-- the record pbSubProto.Pack builds for `exMsgW` (body filtered by the three test filters). -/
+def exRecW : WsP.PRec := WsP.toPRec exMsgW ((Xfer.onPack Drv.testReg exMsgW.pipe exMsgW.body).getD [])
+
+/-- **What pbSubProto loses (known finding c04:ws-subproto-drops-status:pb).** A concrete REPLY
+    with status (404, "Not Found"), packed with a serializer whose decoder inverts its encoder, is
+    delivered — every other field intact — with the zero status, i.e. as OK. -/
+theorem C05_wspb_status_lost_witness :
+    (∀ r t, WsP.toySer exRecW r = some t → WsP.toyDe exRecW t = .ok r) ∧
+    (match WsP.packPb (WsP.toySer exRecW) Drv.testReg 65536 exMsgW with
+     | .ok (bs, sz) =>
+       (WsP.unpackPb (WsP.toyDe exRecW) Drv.testReg 65536 bs).msg? == some { exMsgW with status := Status.zero, size := sz }
+     | _ => false) = true ∧
+    exMsgW.status.ok = false ∧ Status.zero.ok = true := by
+  refine ⟨WsP.toy_inverts _, by decide +kernel, by decide, by decide⟩
+
+/-! Non-vacuity: the example message meets `WFj` and `WFwp`, its pipe is lawful, jsonSubProto packs
+it (the document starts with `{"seq":-2147483648,` and ends with `"xferPipe":[3,2,1]}`) and the
+real round trip is computed by the kernel. -/
+example : JsonP.WFj exMsgW := by decide
+example : WsP.WFwp exMsgW := by decide
+example : ∀ i ∈ exMsgW.pipe, ∃ f, Drv.testReg i = some f ∧ Xfer.Lawful f := by
+  intro i hi
+  simp only [exMsgW, List.mem_cons, List.mem_nil_iff, or_false] at hi
+  rcases hi with h | h | h <;> subst h
+  · exact ⟨Drv.fLen, rfl, lawful_testReg 3 _ rfl⟩
+  · exact ⟨Drv.fXor, rfl, lawful_testReg 2 _ rfl⟩
+  · exact ⟨Drv.fRev, rfl, lawful_testReg 1 _ rfl⟩
+example : (match WsP.packJson Drv.testReg 65536 exMsgW with
+    | .ok (bs, sz) => sz == bs.length && bs.take 19 == [123, 34, 115, 101, 113, 34, 58, 45, 50, 49, 52, 55, 52, 56, 51, 54, 52, 56, 44]
+        && bs.drop (bs.length - 19) == [34, 120, 102, 101, 114, 80, 105, 112, 101, 34, 58, 91, 51, 44, 50, 44, 49, 93, 125]
+    | _ => false) = true := by decide +kernel
+
+/-- **Outside what `Pack` writes: ids the receiver does not know are dropped.** The document
+    `{"body":"ab","xferPipe":[1,9,"1",true,300]}` is delivered with the pipe `[1,1,1]` (9 and
+    300 mod 256 = 44 are not registered; the string `"1"` and `true` count as 1) and the body `ba`. -/
+theorem C05_wsjson_unknown_ids_witness :
+    (WsP.unpackJson Drv.testReg 65536
+      [123, 34, 98, 111, 100, 121, 34, 58, 34, 97, 98, 34, 44, 34, 120, 102, 101, 114, 80, 105, 112, 101, 34, 58,
+       91, 49, 44, 57, 44, 34, 49, 34, 44, 116, 114, 117, 101, 44, 51, 48, 48, 93, 125]).msg?.map (fun m => (m.pipe, m.body))
+      = some ([1, 1, 1], [98, 97]) := by
+  decide +kernel
+-- END websocket sub-protocols
+
+-- BEGIN thrift framing
+/-! ## thriftproto (`proto/thriftproto/{binary_proto,struct_proto}.go`, modelled in Model/ThriftProto)
+
+Apache thrift's `THeaderProtocol` is a parameter `T` with the law `ThriftP.Lawful T fits` (what one flush
+emitted, followed by anything, is read back as the same message begin, payload and header-map lookups,
+leaving exactly the rest; `fits` = the frames inside the library's own limits).  Everything thriftproto
+itself does — which field goes where, the `string(byte)` conversion of the codec id, the header keys,
+the counters and when `SetSize` is checked, the struct variant's requirements and what a failing `Pack`
+leaves on the connection — is concrete. -/
+
+/-- thrift-binary, one frame: for every lawful library, registry, limits, prior protocol-object state
+    and every message of the supported field set `WFt` (message type CALL/REPLY/PUSH, int32 status code,
+    metadata an ordered multimap without an (empty, empty) pair, codec id < 128, ≤ 255 lawful filters;
+    ANY method, status text, metadata bytes — also keys equal to the protocol's own header names —
+    and body), `Unpack` of what `Pack` wrote, followed by any bytes, yields the same eight fields and
+    leaves exactly those bytes.  The size recorded on the read side is `pulled` (see below). -/
+theorem C05_thrift_roundtrip (T : ThriftP.THeader) (fits : ThriftP.TFrame → Prop) (hT : ThriftP.Lawful T fits)
+    (reg : Registry) (limit limit' : Nat) (st : ThriftP.PState) (m : Msg) (rest : Bytes) (sz pulled : Nat)
+    (hw : ThriftP.WFt m) (hl : ∀ i ∈ m.pipe, ∃ f, reg i = some f ∧ Xfer.Lawful f)
+    (hfit : ∀ b, Xfer.onPack reg m.pipe m.body = some b → fits (ThriftP.binFrame m b))
+    (hp : (ThriftP.packBinary T reg limit st m).res = .ok sz) (hlim : pulled % 4294967296 ≤ limit') :
+    ThriftP.unpackBinary T reg limit' pulled ((ThriftP.packBinary T reg limit st m).written ++ rest)
+      = .ok { m with size := pulled % 4294967296 } rest :=
+  ThriftP.unpack_pack_binary T fits hT reg limit limit' st m rest sz pulled hw hl hfit hp hlim
+
+/-- thrift-struct, one frame: supported field set `WFs` (no filters, codec 0 or 't', body a `TStruct`);
+    the codec comes back as 't'. -/
+theorem C05_thrift_struct_roundtrip (T : ThriftP.THeader) (fits : ThriftP.TFrame → Prop) (hT : ThriftP.Lawful T fits)
+    (limit limit' : Nat) (st : ThriftP.PState) (m : Msg) (rest : Bytes) (sz pulled : Nat)
+    (hw : ThriftP.WFs m) (hfit : fits (ThriftP.structFrame m))
+    (hp : (ThriftP.packStruct T limit st true m).res = .ok sz) (hlim : pulled % 4294967296 ≤ limit') :
+    ThriftP.unpackStruct T limit' pulled true ((ThriftP.packStruct T limit st true m).written ++ rest)
+      = .ok { m with codec := 116, size := pulled % 4294967296 } rest := by
+  have h := ThriftP.unpack_pack_struct T fits hT limit limit' st m rest sz pulled hw hfit hp hlim
+  rw [h.1]; exact h.2
+
+/-- thrift-binary, frame sync: any number of messages packed back to back by ONE protocol object (its
+    state threaded through) and read by another, one `Unpack` each: the same messages in the same
+    order, and exactly the trailing bytes remain. -/
+theorem C05_thrift_stream (T : ThriftP.THeader) (fits : ThriftP.TFrame → Prop) (hT : ThriftP.Lawful T fits)
+    (reg : Registry) (limit limit' : Nat) (ms : List Msg) (tail : Bytes)
+    (hw : ∀ m ∈ ms, ThriftP.WFt m ∧ (∀ i ∈ m.pipe, ∃ f, reg i = some f ∧ Xfer.Lawful f) ∧
+      ∀ b, Xfer.onPack reg m.pipe m.body = some b → fits (ThriftP.binFrame m b))
+    (st : ThriftP.PState) (stream : Bytes) (out : List Msg)
+    (hp : ThriftP.packAllBinary T reg limit st ms = some (stream, out))
+    (ps : List Nat) (hlen : ps.length = ms.length) (hps : ∀ p ∈ ps, p % 4294967296 ≤ limit') :
+    ThriftP.unpackNBinary T reg limit' ps (stream ++ tail)
+      = some ((ms.zip ps).map (fun mp => { mp.1 with size := mp.2 % 4294967296 }), tail) :=
+  ThriftP.unpackN_packAll_binary T fits hT reg limit limit' ms tail hw st stream out hp ps hlen hps
+
+/-- WRITE side: the size `Pack` records depends on the message alone — for any two prior states of the
+    protocol object (counters, previous write headers) the bytes written and the result are the same,
+    and a recorded size is the number of bytes this `Pack` put on the connection (as a `uint32`). -/
+theorem C05_thrift_size_depends_on_message_only (T : ThriftP.THeader) (reg : Registry) (limit : Nat)
+    (st st' : ThriftP.PState) (m : Msg) :
+    (ThriftP.packBinary T reg limit st m).written = (ThriftP.packBinary T reg limit st' m).written ∧
+    (ThriftP.packBinary T reg limit st m).res = (ThriftP.packBinary T reg limit st' m).res ∧
+    ∀ sz, (ThriftP.packBinary T reg limit st m).res = .ok sz →
+      sz = (ThriftP.packBinary T reg limit st m).written.length % 4294967296 ∧ sz ≤ limit := by
+  refine ⟨(ThriftP.packBinary_state_irrelevant T reg limit st st' m).1,
+    (ThriftP.packBinary_state_irrelevant T reg limit st st' m).2, ?_⟩
+  intro sz hp
+  obtain ⟨b, _, hwr, hsz, hle⟩ := ThriftP.packBinary_ok T reg limit st m sz hp
+  rw [hwr]; exact ⟨hsz, hle⟩
+
+/-- the same for the struct variant, except that a failing `Pack` of a non-`TStruct` body flushes the
+    previous write headers (see `C05_thrift_struct_failed_pack_witness`). -/
+theorem C05_thrift_struct_size_depends_on_message_only (T : ThriftP.THeader) (limit : Nat)
+    (st st' : ThriftP.PState) (m : Msg) :
+    (ThriftP.packStruct T limit st true m).written = (ThriftP.packStruct T limit st' true m).written ∧
+    (ThriftP.packStruct T limit st true m).res = (ThriftP.packStruct T limit st' true m).res := by
+  unfold ThriftP.packStruct
+  split
+  · simp
+  · split <;> simp
+
+/-- READ side (fix a5c585e): the size `Unpack` records is the read counter after `ReadCounter.Zero()`,
+    i.e. the number of bytes the library pulled from the connection during THIS call — whatever was
+    read on the connection before (`st.rcount`) plays no role. -/
+theorem C05_thrift_unpack_size_is_pulled (T : ThriftP.THeader) (reg : Registry) (limit : Nat)
+    (st st' : ThriftP.PState) (pulled : Nat) (inp : Bytes) :
+    (ThriftP.unpackBinarySt T reg limit st pulled inp).1 = (ThriftP.unpackBinarySt T reg limit st' pulled inp).1 ∧
+    ∀ m rest, (ThriftP.unpackBinarySt T reg limit st pulled inp).1 = .ok m rest → m.size = pulled % 4294967296 := by
+  refine ⟨rfl, ?_⟩
+  intro m rest h
+  simp only [ThriftP.unpackBinarySt, ThriftP.unpackBinary, Nat.zero_add] at h
+  split at h
+  · simp only [ThriftP.decErr] at h; split at h <;> simp at h
+  · split at h
+    · simp at h
+    · split at h
+      · simp only [ThriftP.finish] at h
+        split at h
+        · simp at h
+        · split at h
+          · simp at h
+          · simp only [Raw.Out.ok.injEq] at h; rw [← h.1]
+      · simp at h
+
+/-- the pre-a5c585e `Unpack` (write counter zeroed, read counter never): the size recorded was
+    everything read on the connection so far. -/
+theorem C05_thrift_unpack_old_witness (T : ThriftP.THeader) (reg : Registry) (limit : Nat)
+    (st : ThriftP.PState) (pulled : Nat) (inp : Bytes) :
+    (ThriftP.unpackBinaryOld T reg limit st pulled inp).1 = ThriftP.unpackBinary T reg limit (st.rcount + pulled) inp ∧
+    (ThriftP.unpackBinaryOld T reg limit st pulled inp).2.rcount = st.rcount + pulled ∧
+    (ThriftP.unpackBinaryOld T reg limit st pulled inp).2.wcount = 0 := ⟨rfl, rfl, rfl⟩
+
+/-- full statement that does NOT hold for the read side: "the size recorded for a received message is
+    the length of its frame".  The library reads the connection through a 4096-byte `bufio.Reader`;
+    bytes of FOLLOWING frames that arrive with the current one are counted now and not later.  What
+    does hold, for every possible run (`raRun`): the recorded sizes add up to the frame lengths plus
+    the change of the read-ahead, and a reader that never runs ahead records exactly the frame length. -/
+theorem C05_thrift_unpack_size_partial (a : Nat) (l : List (Nat × Nat)) (a' : Nat) (h : ThriftP.raRun a l = some a') :
+    a + (l.map (·.2)).sum = (l.map (·.1)).sum + a' ∧
+    (∀ len p, ThriftP.raStep 0 len p = some 0 → p = len) :=
+  ⟨ThriftP.raRun_sum a l a' h, ThriftP.raStep_aligned⟩
+
+/-- witness (observed on the real code: three 139-byte frames delivered in one chunk are recorded as
+    417, 0, 0; delivered 7 bytes at a time as 140, 140, 137): both are possible runs, none records 139. -/
+theorem C05_thrift_unpack_size_readahead_witness :
+    ThriftP.raRun 0 [(139, 417), (139, 0), (139, 0)] = some 0 ∧
+    ThriftP.raRun 0 [(139, 140), (139, 140), (139, 137)] = some 0 ∧
+    ThriftP.raRun 0 [(139, 139), (139, 139), (139, 139)] = some 0 := by decide
+
+/-- `string(m.BodyCodec())` is a UTF-8 encoding: a codec id ≥ 128 comes back as the lead byte 0xC2 /
+    0xC3 (id 200 as 195); ids < 128 come back unchanged. -/
+theorem C05_thrift_codec_high_witness :
+    ThriftP.codecOf (ThriftP.codecStr 200) = 195 ∧
+    (∀ c : UInt8, ¬ c < 128 → ThriftP.codecOf (ThriftP.codecStr c) = (192 : UInt8) ||| (c >>> 6)) ∧
+    (∀ c : UInt8, c < 128 → ThriftP.codecOf (ThriftP.codecStr c) = c) :=
+  ⟨by decide, ThriftP.codecOf_codecStr_high, ThriftP.codecOf_codecStr⟩
+
+/-- a message type other than CALL / REPLY / PUSH is written as thrift type 0 and read back as PUSH. -/
+theorem C05_thrift_mtype_other_witness (t : UInt8) (h : ¬ (t = 1 ∨ t = 2 ∨ t = 3)) :
+    ThriftP.mtypeOf (ThriftP.typeOf t) = 3 := by
+  have h1 : ¬ t = 1 := fun e => h (Or.inl e)
+  have h2 : ¬ t = 2 := fun e => h (Or.inr (Or.inl e))
+  have h3 : ¬ t = 3 := fun e => h (Or.inr (Or.inr e))
+  simp [ThriftP.typeOf, ThriftP.mtypeOf, h1, h2, h3]
+
+/-- thrift-binary: a `Pack` that fails for any reason but the size limit has written nothing (the size
+    limit is checked after the flush: tie A `C05_pack_size_checked`). -/
+theorem C05_thrift_binary_failed_pack_silent (T : ThriftP.THeader) (reg : Registry) (limit : Nat)
+    (st : ThriftP.PState) (m : Msg) (e : ThriftP.PackErr)
+    (hp : (ThriftP.packBinary T reg limit st m).res = .error e) (hne : e ≠ .size) :
+    (ThriftP.packBinary T reg limit st m).written = [] :=
+  ThriftP.packBinary_err_silent T reg limit st m e hp hne
+
+/-- full statement that does NOT hold for thrift-struct: "a `Pack` that returns an error other than the
+    size limit leaves the connection untouched".  Witness: a body that does not implement
+    `thrift.TStruct` (empty pipe, codec 0 or 't') — `structPack` has buffered the message begin,
+    returns the error, and `Pack`'s `Transport().Close()` flushes it: a frame without payload, carrying
+    the PREVIOUS message's headers, goes out (the receiver then reads into the next frame).  The two
+    errors that precede the message begin are silent. -/
+theorem C05_thrift_struct_failed_pack_witness (T : ThriftP.THeader) (limit : Nat) (st : ThriftP.PState) (m : Msg)
+    (hp : m.pipe = []) (hc : m.codec = 0 ∨ m.codec = 116) :
+    (ThriftP.packStruct T limit st false m).res = .error .notStruct ∧
+    (ThriftP.packStruct T limit st false m).written
+      = T.enc { name := m.method, typeID := ThriftP.typeOf m.mtype, seq := m.seq, payload := .none, hdr := st.whdr } := by
+  have hp0 : ¬ (m.pipe.length > 0) := by rw [hp]; simp
+  have hc0 : ¬ (m.codec ≠ 0 ∧ m.codec ≠ 116) := by rcases hc with h | h <;> simp [h]
+  unfold ThriftP.packStruct
+  simp [hp0, hc0]
+
+theorem C05_thrift_struct_failed_pack_partial (T : ThriftP.THeader) (limit : Nat) (st : ThriftP.PState)
+    (isStruct : Bool) (m : Msg) (e : ThriftP.PackErr)
+    (hp : (ThriftP.packStruct T limit st isStruct m).res = .error e) (he : e = .pipe ∨ e = .codec) :
+    (ThriftP.packStruct T limit st isStruct m).written = [] := by
+  unfold ThriftP.packStruct at hp ⊢
+  split
+  · rfl
+  · split
+    · rfl
+    · rename_i h1 h2
+      simp only [h1, h2, if_false] at hp
+      split at hp
+      · simp only [Except.error.injEq] at hp; rcases he with h | h <;> rw [h] at hp <;> simp at hp
+      · simp only [ThriftP.sizeRes] at hp
+        split at hp
+        · simp only [Except.error.injEq] at hp; rcases he with h | h <;> rw [h] at hp <;> simp at hp
+        · simp at hp
+
+/-- the header keys: `Pack` sets exactly the four (two) keys on a cleared map, whatever was there. -/
+theorem C05_thrift_header_keys (m : Msg) :
+    (ThriftP.binHdr m).map (·.1) = [ThriftP.kStatus, ThriftP.kMeta, ThriftP.kCodec, ThriftP.kPipe] ∧
+    (ThriftP.structHdr m).map (·.1) = [ThriftP.kStatus, ThriftP.kMeta] :=
+  ⟨ThriftP.binHdr_keys m, ThriftP.structHdr_keys m⟩
+
+/-- the law assumed of the thrift library is satisfiable: the driver's executable codec `toyT` meets it
+    for every frame with an int32 sequence number (so the theorems above are not vacuous in `hT`). -/
+theorem C05_thrift_law_satisfiable : ThriftP.Lawful Drv.D05t.toyT (fun f => Num.inInt32 f.seq) :=
+  Drv.D05t.toyT_lawful
+
+/-! Non-vacuity: a concrete non-trivial message (a metadata key equal to the protocol's own header name
+    `Tp-Status`, a repeated key, bytes 0 / 255 / `%` / `&` / `=` everywhere, a three-filter pipe) is in
+    `WFt`, packs, and the model's executable library instance round-trips it. -/
+
+def exMsgT : Msg :=
+  { seq := -2147483648, mtype := 3, method := [47, 97, 0, 255, 37], status := ⟨404, [78, 37, 0, 255, 38, 61], some []⟩,
+    md := [(ThriftP.kStatus, [99, 111, 100, 101, 61, 55]), ([107], [1]), ([107], []), ([], [61, 38, 255])], codec := 127,
+    body := [31, 139, 8, 0, 255, 37, 38], pipe := [1, 2, 3] }
+
+example : ThriftP.WFt exMsgT := by decide
+example : ThriftP.WFs { exMsgT with codec := 0, pipe := [] } := by decide
+
+example : (match (ThriftP.packBinary Drv.D05t.lenT Drv.testReg 65536 {} exMsgT).res with
+    | .ok sz => sz == 172 | _ => false) = true := by decide +kernel
+
+example : (match ThriftP.unpackBinary Drv.D05t.toyT Drv.testReg 65536 4096
+      ((ThriftP.packBinary Drv.D05t.toyT Drv.testReg 65536 {} { exMsgT with seq := -7 }).written ++ [1, 2, 3]) with
+    | .ok m rest => decide (m = { exMsgT with seq := -7, size := 4096 }) && rest == [1, 2, 3]
+    | _ => false) = true := by decide +kernel
+-- END thrift framing
 
 end C05
 end Teleport
